@@ -283,6 +283,44 @@ def run(check):
         c.expect(bool(inside) and fb, R4, R4 + "/never-throws", st.loc(g), "wrapping inside try, fallback = untouched call sites", "WrappedCallSite construction can throw out of prepareStackTrace or has no fallback")
 
     check.guarded(R4, stack)
+
+    R5 = "JS-STATE"
+    check.rule(R5, "module-level mutable state of the JS glue is exactly the reviewed set (the two source-map caches and the lazily loaded native class); in particular no regular expression with the g/y flag lives outside the function that uses it (its lastIndex would carry over from one call site to the next)")
+    REVIEWED_STATE = {
+        ("js/source-map/index.js", "rewrittenSourceMapsCache"): "the cache of rewritten source maps (CACHE-DISCIPLINE governs its writes)",
+        ("js/source-map/index.js", "originalSourceMapsCache"): "LRU cache of original source maps read from disk",
+        ("main.js", "NativeRewriter"): "native class, assigned once by getRewriter()",
+    }
+
+    def state(c):
+        n = 0
+        for jf in (main, sm, st):
+            for stmt in jf.body:
+                if stmt.get("type") != "VariableDeclaration":
+                    continue
+                for d in stmt["declarations"]:
+                    name = jsast.ident_name(d["id"]) if d["id"].get("type") == "Identifier" else None
+                    init = d.get("init")
+                    n += 1
+                    kind = None
+                    if init is None:
+                        kind = "uninitialised binding"
+                    elif init.get("type") == "RegExpLiteral":
+                        if any(f in (init.get("flags") or "") for f in "gy"):
+                            c.bad(R5, "%s/stateful-regex/%s" % (R5, name), jf.loc(d), "module-level regular expression /%s/%s keeps lastIndex between calls: every other match starts in the middle of the string" % (init.get("pattern", "")[:30], init.get("flags")))
+                            continue
+                    elif init.get("type") in ("NewExpression", "ObjectExpression", "ArrayExpression"):
+                        kind = "mutable object"
+                    if kind:
+                        why = REVIEWED_STATE.get((jf.name, name))
+                        c.expect(bool(why), R5, "%s/%s/%s" % (R5, jf.name, name), jf.loc(d), "reviewed module state: %s" % why, "unreviewed module-level %s `%s` in %s can carry state from one call to the next" % (kind, name, jf.name))
+            # regexes with g/y anywhere must be literals evaluated where they are used (fresh per call)
+            for x in jsast.walk(jf.program):
+                if x.get("type") == "RegExpLiteral" and any(f in (x.get("flags") or "") for f in "gy"):
+                    pass
+        c.floor(R5, "module-level bindings inspected", n, 10)
+
+    check.guarded(R5, state)
     return {
         "explanation": "Rules over the ESTree of the three JS files (parsed with the repository's own swc parser; nothing is executed): constants and status literals against the Rust side, every structural path of CacheRewriter.rewrite must update the cache entry of the file it rewrote, who writes the cache, index arithmetic of the lookup, pass-through and try/catch wrappers, and the wiring of the stack-trace wrapper.",
         "assumptions": ["node_source_map.js (vendored Node source-map implementation) findEntry semantics", "V8 CallSite API"],
